@@ -142,6 +142,13 @@ struct TcpData {
     data: Vec<u8>,
 }
 
+/// Upper bounds on the payload bytes and segments buffered per direction while waiting for a
+/// complete HTTP message. A direction that carried this much without yielding one (encrypted,
+/// binary or endless data) is given up, so memory and per-packet work do not grow with the length
+/// of the connection.
+const MAX_BUFFERED_BYTES_PER_DIRECTION: usize = 64 * 1024;
+const MAX_BUFFERED_SEGMENTS_PER_DIRECTION: usize = 1024;
+
 pub struct TcpFlow {
     client_ip: IpAddr,
     server_ip: IpAddr,
@@ -155,6 +162,9 @@ pub struct TcpFlow {
     client_isn: u32,
     /// Initial sequence number of the server, once its SYN+ACK has been seen
     server_isn: Option<u32>,
+    /// Payload bytes currently buffered per direction
+    client_buffered: usize,
+    server_buffered: usize,
 }
 
 /// Quick check if HTTP data is complete for parsing (supports HTTP/1.x and HTTP/2)
@@ -186,6 +196,8 @@ impl TcpFlow {
             server_port: dst_port,
             client_isn: tcp_data.sequence,
             server_isn: None,
+            client_buffered: tcp_data.data.len(),
+            server_buffered: 0,
             // bytes carried by the SYN itself follow the sequence number the SYN consumes
             client_data: vec![TcpData {
                 sequence: tcp_data.sequence.wrapping_add(1),
@@ -329,7 +341,17 @@ fn process_tcp_packet(
 
             if is_client && src_ip == flow.client_ip && src_port == flow.client_port {
                 // Only add data and parse if not already parsed
-                if !flow.client_http_parsed {
+                if !flow.client_http_parsed
+                    && (flow.client_buffered.saturating_add(tcp_data.data.len())
+                        > MAX_BUFFERED_BYTES_PER_DIRECTION
+                        || flow.client_data.len() >= MAX_BUFFERED_SEGMENTS_PER_DIRECTION)
+                {
+                    debug!("CLIENT: no HTTP message within the buffer limit, giving up");
+                    flow.client_http_parsed = true;
+                    flow.client_data = Vec::new();
+                    flow.client_buffered = 0;
+                } else if !flow.client_http_parsed {
+                    flow.client_buffered = flow.client_buffered.saturating_add(tcp_data.data.len());
                     flow.client_data.push(tcp_data);
                     let full_data = flow.get_full_data(is_client);
 
@@ -349,7 +371,17 @@ fn process_tcp_packet(
                 }
             } else if src_ip == flow.server_ip && src_port == flow.server_port {
                 // Only add data and parse if not already parsed
-                if !flow.server_http_parsed {
+                if !flow.server_http_parsed
+                    && (flow.server_buffered.saturating_add(tcp_data.data.len())
+                        > MAX_BUFFERED_BYTES_PER_DIRECTION
+                        || flow.server_data.len() >= MAX_BUFFERED_SEGMENTS_PER_DIRECTION)
+                {
+                    debug!("SERVER: no HTTP message within the buffer limit, giving up");
+                    flow.server_http_parsed = true;
+                    flow.server_data = Vec::new();
+                    flow.server_buffered = 0;
+                } else if !flow.server_http_parsed {
+                    flow.server_buffered = flow.server_buffered.saturating_add(tcp_data.data.len());
                     flow.server_data.push(tcp_data);
                     let full_data = flow.get_full_data(is_client);
 
